@@ -582,6 +582,77 @@ fn run_inst<T: Sc>(line: &Line, idx: usize, pools: &Pools, opts: &Opts, rep: &mu
         }
     }
 
+    // ---------------- column-scaled twins: one basis function (and its derivatives) times 2^-30 ----------------
+    // The coefficient of that function grows by 2^30, Phi*C, the residuals and the Kaufman Jacobian do not
+    // change at all - but the weighted basis matrix now has a singular value of order 1e-9 while still
+    // having full column rank (C03: "whenever the weighted basis matrix has full column rank").
+    if T::NAME == "f64" && inst.m >= 2 && idx % 3 == 0 {
+        let jcol = inst.m - 1;
+        let sc = T::of64((2.0f64).powi(-30));
+        let scaled = Arc::new(Table {
+            n: inst.n,
+            m: inst.m,
+            p: inst.p,
+            entries: inst
+                .table
+                .entries
+                .iter()
+                .map(|e| {
+                    let f = |mtx: &DMatrix<T>| DMatrix::from_fn(mtx.nrows(), mtx.ncols(), |i, j| if j == jcol { mtx[(i, j)] * sc } else { mtx[(i, j)] });
+                    TableEntry {
+                        a: e.a.clone(),
+                        phi: f(&e.phi),
+                        dphi: e.dphi.iter().map(f).collect(),
+                    }
+                })
+                .collect(),
+        });
+        let mrhs = inst.s >= 2;
+        let flav = format!("{} column-scaled twin (function {} x 2^-30)", tag(idx, &fam, T::NAME, Kind::Table, mrhs, false, EpsVar::Default), jcol);
+        if let Ok(mut twin) = build_problem(TableModel::new(scaled, &a_first), mrhs, false, &inst.y, wref, None) {
+            for &qi in order.iter().take(npts) {
+                let pt = &inst.line.pts[qi];
+                if !(pt.rank == mfull && pt.lvl >= 2 && inst.healthy[qi]) {
+                    continue;
+                }
+                let a: Vec<T> = pt.a.iter().map(|&v| T::of64(v as f64)).collect();
+                twin.set_params(&a);
+                let det = |what: &str, dv: f64| json!({"flavour": flav, "a": pt.a, "what": what, "dev": dv});
+                if let (Some(c), Some(r)) = (twin.coeffs(), twin.residuals()) {
+                    let mut wc = 0.0f64;
+                    for j in 0..inst.m {
+                        for s in 0..inst.s {
+                            let e = pt.cn[j][s] as f64 / pt.d as f64 * if j == jcol { (2.0f64).powi(30) } else { 1.0 };
+                            let scale = if j == jcol { (2.0f64).powi(30) } else { 1.0 };
+                            wc = wc.max((c[(j, s)].to64() - e).abs() / (scale * e.abs().max(1.0) / scale.max(1.0)).max(scale));
+                        }
+                    }
+                    rep.check("C01", wc <= 1e-5, wc, || det("coefficients of the column-scaled twin", wc));
+                    let mut wr = 0.0f64;
+                    if r.len() == pt.rn.len() {
+                        for k in 0..r.len() {
+                            wr = wr.max(dev(r[k].to64(), pt.rn[k], pt.d));
+                        }
+                    } else {
+                        wr = f64::INFINITY;
+                    }
+                    rep.check("C02", wr <= 1e-5, wr, || det("residuals change when a basis function is rescaled", wr));
+                }
+                if let Some(jm) = twin.jacobian() {
+                    let d2 = pt.d * pt.d;
+                    let mut wj = 0.0f64;
+                    for k in 0..inst.p {
+                        for r in 0..jm.nrows() {
+                            wj = wj.max(dev(jm[(r, k)].to64(), pt.jn[k][r], d2));
+                        }
+                    }
+                    rep.check("C03", wj <= 1e-5, wj, || det("Jacobian differs from -(I-P) W D_k C although the weighted basis matrix has full column rank (smallest singular value ~1e-9)", wj));
+                }
+                rep.count("column_scaled_twin_points", 1);
+            }
+        }
+    }
+
     // ---------------- C07: column-wise independence, permutation ----------------
     if inst.s >= 2 {
         let ev = EpsVar::User;
